@@ -142,9 +142,16 @@ pub fn run(ctx: &mut Ctx) {
         }
         check_one(ctx, t);
     }
+    let mon = super::routes::Monitor::new(&["to_serde_json", "to_serde_json_object"]);
     if ctx.shard == 0 {
+        let mut rng = ctx.rng.fork();
         for v in gen::int_pool() {
             ctx.next_case();
+            if v >= 0 {
+                let t = Tree::Obj(vec![("n".into(), Tree::Arr(vec![Tree::Num(Num::U(v as u64))]))]);
+                let args = super::routes::plain_args(&t, &mut rng);
+                mon.check(ctx, &t, &t, &args, &mut rng);
+            }
             if v >= 0 {
                 check_one(ctx, &Tree::Arr(vec![Tree::Num(Num::U(v as u64))]));
             }
@@ -165,6 +172,10 @@ pub fn run(ctx: &mut Ctx) {
         let mut rng = ctx.rng.fork();
         let t = if i % 4001 == 7 && !ctx.miri { gen::big_doc(&mut rng, true) } else { gen::doc(&mut rng, if i % 4 == 0 { &gen::DocCfg { max_depth: 7, max_fan: 4, nonfinite: false, container_p: 6 } } else { &gen::DOC_FINITE }) };
         check_one(ctx, &t);
+        if i % 3 == 1 && t.nodes() < 300 {
+            let args = super::routes::plain_args(&t, &mut rng);
+            mon.check(ctx, &t, &t, &args, &mut rng);
+        }
         ctx.sample(|| t.show());
     }
 }
